@@ -500,6 +500,12 @@ func runCheck(prop, tier, only string, jobs, seed int, noReplay bool, dump strin
 			}
 			ev.Coverage.TracesValidated++
 			if !strings.HasPrefix(s.result, "reproduced") {
+				if s.ob.Abstract != "" {
+					// a model of an over-approximated query that does not replay is expected to be spurious:
+					// undecided (reported), neither a violation nor a defect of the check
+					ev.Coverage.Undecided = append(ev.Coverage.Undecided, fmt.Sprintf("%s[%s] %s: model did not replay natively (%s; %s)", s.ob.Harness, s.ob.Case, s.ob.Msg, s.ob.Abstract, s.result))
+					continue
+				}
 				// the encoding or a margin is wrong: never reported as a violation
 				broken = append(broken, fmt.Sprintf("%s: counterexample for %q did not reproduce natively (%s); file %s", s.ob.Harness, s.ob.Msg, s.result, s.file))
 				continue
